@@ -6,6 +6,8 @@ pub mod envp;
 pub mod memfs;
 pub mod wrap;
 pub mod macros;
+pub mod data;
+pub mod treeops;
 
 pub struct Prop {
     pub id: &'static str,
@@ -28,6 +30,8 @@ pub fn registry() -> Vec<Prop> {
     v.extend(memfs::props());
     v.extend(wrap::props());
     v.extend(macros::props());
+    v.extend(data::props());
+    v.extend(treeops::props());
     v
 }
 
